@@ -16,7 +16,7 @@ EXPLANATION = (
     "canonical choices intact (case-sensitive), chain([c]) has c's records, and in case-insensitive mode no two result "
     "records hold CURIE prefixes equal up to case. get_subconverter(P) for a symbolic P: exactly the records with a prefix "
     "or synonym in P, copied unchanged, nothing else resolvable.")
-BOUNDS = dict(converters="<= 3", records_per_converter="<= 2", synonyms_per_side="<= 1", subset_size="<= 2",
+BOUNDS = dict(converters="<= 3", records_per_converter="<= 2", synonyms_per_side="<= 1 (case-insensitive mode: <= 3 records and <= 2 synonyms in total, the uninterpreted casefold makes every pair of strings an independent fork)", subset_size="<= 2",
               strings="unbounded, full z3 alphabet", casefold="uninterpreted function; counterexamples refined over ASCII length <= 3")
 OUTSIDE = ["custom delimiters (chain / get_subconverter build Converter(records) with the default delimiter; the property "
            "does not quantify over delimiters)", "more than 3 converters or 2 records each", "non-strict inputs"]
@@ -34,10 +34,12 @@ SHAPES = [
     ("sub", [[1, 0], [0, 0]], False, Q, dict(params=dict(k=2), budget=600, shard=5)),
     ("chain", [[0, 0]], False, T, dict(params=dict(second=[[0, 0]], third=[[0, 0]], cs=True), budget=2400, shard=8)),
     ("chain", [[1, 0], [0, 0]], False, T, dict(params=dict(second=[[1, 0], [0, 0]], cs=True), budget=3000, shard=9)),
-    ("chain", [[0, 0], [0, 0]], False, T, dict(params=dict(second=[[0, 0], [0, 0]], cs=False), budget=3000, shard=9)),
-    ("chain", [[1, 1]], False, T, dict(params=dict(second=[[1, 1]], cs=False), budget=3000, shard=9)),
+    ("chain", [[0, 0], [0, 0]], False, T, dict(params=dict(second=[[0, 0]], cs=False), budget=3000, shard=9)),
+    ("chain", [[1, 0]], False, T, dict(params=dict(second=[[1, 0]], cs=False), budget=3000, shard=9)),
+    ("chain", [[0, 1]], False, T, dict(params=dict(second=[[0, 1]], cs=False), budget=3000, shard=9)),
     ("sub", [[1, 1], [1, 0]], False, T, dict(params=dict(k=2), budget=2400, shard=8)),
-    ("single", [[1, 1], [1, 1]], False, T, dict(params=dict(cs=False), budget=1800, shard=6)),
+    ("single", [[1, 0], [0, 0]], False, T, dict(params=dict(cs=False), budget=1800, shard=6)),
+    ("single", [[1, 1], [1, 1]], False, T, dict(params=dict(cs=True), budget=1800, shard=6)),
 ]
 
 
@@ -137,8 +139,8 @@ def build(job):
                     a, b = subc.expand_pair(p, ident), parent.expand_pair(p, ident)
                     eng.expect(a is not None and b is not None and sym_eq(a, b), "subconverter expands a kept prefix differently")
                 for u in r.all_u:
-                    a, b = subc.compress(u + ident), parent.compress(u + ident)
-                    eng.expect((a is None) == (b is None), "subconverter does not compress a URI of a kept record") if False else None
+                    eng.expect(sym_eq(subc.reverse_prefix_map.get(u), parent.reverse_prefix_map.get(u)) and u in subc.trie,
+                               "subconverter does not know a URI prefix of a kept record as the parent does")
             else:
                 eng.check_holds(z3.Not(inside), "get_subconverter dropped a record that has a prefix or synonym in the subset")
                 for p in r.all_p:
